@@ -1110,6 +1110,7 @@ class Optimizer(object):
                     y_opt=np.min(yi),
                     acq_func=cand_acq_func,
                     acq_func_kwargs=self.acq_func_kwargs,
+                    random_state=self.rng,
                 )
 
                 # cache these values in case the strategy of ask is one-shot
@@ -1146,6 +1147,7 @@ class Optimizer(object):
                                     cand_acq_func,
                                     self.acq_func_kwargs,
                                     use_gradients,
+                                    self.rng,
                                 ),
                                 bounds=transformed_bounds,
                                 # TODO: Use approximated gradient when not available
@@ -1202,7 +1204,7 @@ class Optimizer(object):
                     problem = PyMOOMixedVectorizedProblem(
                         space=self.space,
                         acq_func=lambda x: _gaussian_acquisition(
-                            self.space.transform(x), *args
+                            self.space.transform(x), *args, random_state=self.rng
                         ),
                     )
                     repair = ConfigSpaceRepair(self.space)
@@ -1249,7 +1251,9 @@ class Optimizer(object):
                         n_var=len(xl),
                         xl=xl,
                         xu=xu,
-                        acq_func=lambda x: _gaussian_acquisition(x, *args),
+                        acq_func=lambda x: _gaussian_acquisition(
+                            x, *args, random_state=self.rng
+                        ),
                     )
 
                     pop = self._pymoo_pop_size
